@@ -367,7 +367,12 @@ int main(int argc, char **argv) {
     strcpy(K[1].name, "K2"); K[1].niv = 2; K[1].iv[0][0] = 4000; K[1].iv[0][1] = 4200;
     K[1].iv[1][0] = 65535; K[1].iv[1][1] = 65536;
     strcpy(K[2].name, "K4"); K[2].niv = 1; K[2].iv[0][0] = 1; K[2].iv[0][1] = 4097;
-    nK = 3;
+    strcpy(K[3].name, "KA"); K[3].niv = 3; K[3].iv[0][0] = 5; K[3].iv[0][1] = 12;
+    K[3].iv[1][0] = 9998; K[3].iv[1][1] = 10003; K[3].iv[2][0] = 19998; K[3].iv[2][1] = 20002;
+    strcpy(K[4].name, "KB"); K[4].niv = 2; K[4].iv[0][0] = 0; K[4].iv[0][1] = 5000;
+    K[4].iv[1][0] = 9000; K[4].iv[1][1] = 11000;
+    strcpy(K[5].name, "KRr"); K[5].niv = 1; K[5].iv[0][0] = 9000; K[5].iv[0][1] = 16000;
+    nK = 6;
     strcpy(L[0].name, "L3"); L[0].n = 40;
     for (int i = 0; i < 40; i++) L[0].v[i] = (uint16_t)(4091 + i);
     nL = 1;
@@ -480,6 +485,30 @@ int main(int argc, char **argv) {
             continue;
         }
         bitmap_faults(B[b].name, B[b].pre, B[b].np, B[b].t, after, 3);
+    }
+    /* set algebra: every operation x left operand of every container kind x
+     * right operand of every container kind (all overlapping), both orders */
+    {
+        static const struct { const char *name; const bstep *pre; int np; } LEFT[] = {
+            {"array", few, 2}, {"array4096", fill4096, 1}, {"dense", fill4097, 2}, {"runs", runs, 1}};
+        static const char *OPS[] = {"Or", "And", "Xor", "AndNot", "ROr", "RAnd", "RXor", "RAndNot"};
+        static const char *RIGHT[] = {"KA", "KB", "KRr"};
+        static char names[4 * 8 * 3][48];
+        int nn = 0;
+        for (int l = 0; l < 4; l++) {
+            for (int o = 0; o < 8; o++) {
+                for (int r = 0; r < 3; r++) {
+                    if (idx++ % nshards != shard) {
+                        nn++;
+                        continue;
+                    }
+                    snprintf(names[nn], sizeof(names[nn]), "%s %s %s", LEFT[l].name, OPS[o], RIGHT[r]);
+                    bstep t = {OPS[o], 0, 0, RIGHT[r]};
+                    bitmap_faults(names[nn], LEFT[l].pre, LEFT[l].np, t, after, 3);
+                    nn++;
+                }
+            }
+        }
     }
     tr_close();
     return 0;
